@@ -149,6 +149,11 @@ func (d dissecting) Dissect(b *bufio.Reader, reader api.TcpReader) error {
 			if err == io.EOF || err == io.ErrUnexpectedEOF {
 				break
 			} else if err != nil {
+				if _, peekErr := b.Peek(1); peekErr != nil {
+					// Nothing more can be read (the reader keeps failing, or the stream has
+					// ended): stop instead of retrying forever.
+					break
+				}
 				continue
 			}
 			reader.GetParent().SetProtocol(&http11protocol)
@@ -158,6 +163,11 @@ func (d dissecting) Dissect(b *bufio.Reader, reader api.TcpReader) error {
 			if err == io.EOF || err == io.ErrUnexpectedEOF {
 				break
 			} else if err != nil {
+				if _, peekErr := b.Peek(1); peekErr != nil {
+					// Nothing more can be read (the reader keeps failing, or the stream has
+					// ended): stop instead of retrying forever.
+					break
+				}
 				continue
 			}
 			reader.GetParent().SetProtocol(&http11protocol)
@@ -189,6 +199,11 @@ func (d dissecting) Dissect(b *bufio.Reader, reader api.TcpReader) error {
 			if err == io.EOF || err == io.ErrUnexpectedEOF {
 				break
 			} else if err != nil {
+				if _, peekErr := b.Peek(1); peekErr != nil {
+					// Nothing more can be read (the reader keeps failing, or the stream has
+					// ended): stop instead of retrying forever.
+					break
+				}
 				continue
 			}
 			reader.GetParent().SetProtocol(&http11protocol)
